@@ -1772,7 +1772,7 @@ func rulePassUnconditional(r *Run) {
 						if !rs[ret.Block()] {
 							continue
 						}
-						if ei < 0 || ei >= len(ret.Results) || isNilConst(ret.Results[ei]) {
+						if ei < 0 || ei >= len(ret.Results) || isNilConst(retResult(ret, ei)) {
 							bypass = true
 						}
 					}
@@ -2909,4 +2909,123 @@ func ruleSizedByRow(r *Run) {
 		})
 	}
 	r.Count("slices_sized_by_a_row", n)
+}
+
+// ---------------------------------------------------------------------------
+// R-LOAD-PARSES (C16, C17): what a template renders is a function of the templates loaded, in the
+// order they were loaded.  Every successful return of LoadTemplate passes through the parse step
+// (the function that links a template to its parent): a cached object handed back without it keeps
+// the parent link of an earlier load — a base template replaced since, or loaded after the child,
+// is not seen.
+// ---------------------------------------------------------------------------
+
+func ruleLoadParses(r *Run) {
+	p := r.P
+	n := 0
+	for _, name := range []string{"(*TemplateEngine).LoadTemplate", "(*TemplateEngine).LoadTemplateFromDocument"} {
+		fn := r.mustFunc(pkgDoc, name)
+		if fn == nil {
+			continue
+		}
+		// the parse step: a module callee (directly or through helpers, on every path) that can store Template.Parent
+		linksParent := func(g *ssa.Function) bool {
+			found := false
+			for h := range p.staticReach(g) {
+				allInstrs(h, func(in ssa.Instruction) {
+					if st, ok := in.(*ssa.Store); ok {
+						if fv, _ := fieldOfAddr(st.Addr); fieldIs(p, fv, pkgDoc, "Template", "Parent") {
+							found = true
+						}
+					}
+				})
+			}
+			return found
+		}
+		var parses []ssa.Instruction
+		allInstrs(fn, func(in ssa.Instruction) {
+			if c, ok := in.(*ssa.Call); ok {
+				if cal := staticCallee(c); cal != nil && p.inModule(cal) && linksParent(cal) {
+					parses = append(parses, c)
+				}
+			}
+		})
+		n++
+		okAll := len(parses) > 0
+		var badPos token.Pos = fn.Pos()
+		ei := errorResultIndex(fn.Signature)
+		for _, ret := range returnsOf(fn) {
+			if ei >= 0 && ei < len(ret.Results) && !isNilConst(retResult(ret, ei)) {
+				continue
+			}
+			if !mustPassThrough(fn, ret, parses) {
+				okAll = false
+				badPos = ret.Pos()
+			}
+		}
+		r.Check("load-parses", shortName(fn), badPos, okAll,
+			fmt.Sprintf("%s: %s", shortName(fn), map[bool]string{true: "every successful return has parsed the template (and resolved its parent against the templates loaded now)", false: "a successful return does not pass the parse step — a template object from an earlier load is handed back with the parent link it had then; a base template loaded or replaced since is ignored, so the rendering depends on more than the templates as loaded"}[okAll]))
+	}
+	r.Min("template_load_entry_points", n, 2)
+}
+
+// ---------------------------------------------------------------------------
+// R-LINE-VERBATIM (C16): text outside directives is copied unchanged.  The run text created for a
+// rendered line is the line: no trimming function lies on the data path from the rendered content
+// to a Text.Content store in the function that turns rendered text into paragraphs (a trim used
+// only to TEST for a blank line is a condition, not data).
+// ---------------------------------------------------------------------------
+
+func ruleLineVerbatim(r *Run) {
+	p := r.P
+	anchor := r.mustFunc(pkgDoc, "(*TemplateEngine).applyRenderedContentToDocument")
+	if anchor == nil {
+		return
+	}
+	sl := newSlicer(p)
+	sl.dataOnly = true
+	n := 0
+	for _, fn := range helperGroup(p, anchor) {
+		allInstrs(fn, func(in ssa.Instruction) {
+			st, ok := in.(*ssa.Store)
+			if !ok {
+				return
+			}
+			fv, _ := fieldOfAddr(st.Addr)
+			if !fieldIs(p, fv, pkgDoc, "Text", "Content") {
+				return
+			}
+			if _, isC := st.Val.(*ssa.Const); isC {
+				return
+			}
+			n++
+			bad := ""
+			var scan func(v ssa.Value, depth int)
+			scan = func(v ssa.Value, depth int) {
+				for x := range sl.Slice(v).Vals {
+					if c, ok := x.(*ssa.Call); ok {
+						switch cn := calleeName(c); cn {
+						case "strings.TrimSpace", "strings.TrimRight", "strings.TrimLeft", "strings.Trim", "strings.TrimSuffix", "strings.TrimPrefix", "strings.TrimFunc", "strings.TrimRightFunc", "strings.TrimLeftFunc", "strings.Fields", "strings.ToLower", "strings.ToUpper", "strings.ReplaceAll", "strings.Replace":
+							bad = cn + " at " + p.pos(c.Pos())
+						}
+					}
+					// the text comes in as a parameter of a helper: what the callers hand over
+					if par, ok := x.(*ssa.Parameter); ok && depth < 2 && isStringType(par.Type()) {
+						h := par.Parent()
+						if h != nil && h != anchor && (h.Object() == nil || !h.Object().Exported()) {
+							pi := paramIndex(h, par)
+							for _, cs := range staticCallSites(p, h) {
+								if pi >= 0 && pi < len(cs.Common().Args) {
+									scan(cs.Common().Args[pi], depth+1)
+								}
+							}
+						}
+					}
+				}
+			}
+			scan(st.Val, 0)
+			r.Check("line-verbatim", fmt.Sprintf("%s#%d", shortName(topLevel(fn)), n), st.Pos(), bad == "",
+				fmt.Sprintf("%s stores the text of a rendered line into a run: %s", shortName(topLevel(fn)), map[bool]string{true: "the line as rendered", false: "after " + bad + " — trailing or leading blanks that were literal template text or part of a value are dropped, so the paragraph text is not the rendered line"}[bad == ""]))
+		})
+	}
+	r.Min("rendered_line_text_stores", n, 1)
 }
